@@ -126,7 +126,7 @@ def _run_case_child(case, d):
     worker = case.get("worker", "sched")
     if worker == "sched":
         res, w = sched.run_scheduled(task, cache, gate, case.get("choices") or [],
-                                     max_concurrent=case.get("k"), n_procs=case.get("n_procs", 12))
+                                     max_concurrent=case.get("k"), n_procs=case.get("n_procs", 8))
         data.update(max_blocked=w.max_blocked, releases=list(w.releases), settle_timeouts=w.settle_timeouts)
     else:
         open(os.path.join(gate, "free"), "w").close()
